@@ -31,13 +31,16 @@ CONSTANTS
   MaxFile,     \* bound on file numbers (state constraint)
   Reuse,       \* set of BOOLEAN: reuse_log_files settings an open may use
   AllowTorn,   \* whether a crash may tear the last append
+  MaxFaults,   \* bound on injected filesystem failures (C08)
   \* named deviations
   Bug_AckBeforeWal,            \* write acknowledged before the WAL append
   Bug_WalDeletedEarly,         \* old WAL removed before the manifest records the flush
   Bug_ManifestBeforeTable,     \* manifest record appended before the table is complete
   Bug_CurrentInPlace,          \* CURRENT truncated and rewritten in place
   Bug_RecoverSkipsOlderWal,    \* recovery replays only the newest WAL
-  Bug_ReuseAfterTornTail       \* a log with a partial trailing record is reused for appending
+  Bug_ReuseAfterTornTail,      \* a log with a partial trailing record is reused for appending
+  Bug_WriteErrorSwallowed,     \* a failed WAL append is acknowledged as success
+  Bug_ManifestErrorSwallowed   \* a failed manifest append is treated as installed
 
 VARIABLES
   \* ---- disk
@@ -50,12 +53,15 @@ VARIABLES
   curWal, logWal, manNo, nextFile, reuseOpt,
   recWals,   \* WALs still to replay during recovery
   job,       \* scratch of the running procedure
+  bad,       \* sticky background error (volatile)
   \* ---- ghost
-  started, acked, nextB, crashes, lastAppend
+  started, acked, nextB, crashes, lastAppend,
+  failed,    \* ids of write calls that returned an error
+  faults     \* failures injected so far
 
 disk == <<wal, man, tab, cur, tmp>>
-vol == <<up, pc, mem, imm, ver, curWal, logWal, manNo, nextFile, reuseOpt, recWals, job>>
-ghost == <<started, acked, nextB, crashes>>
+vol == <<up, pc, mem, imm, ver, curWal, logWal, manNo, nextFile, reuseOpt, recWals, job, bad>>
+ghost == <<started, acked, nextB, crashes, failed, faults>>
 vars == <<disk, vol, ghost, lastAppend>>
 
 None == [k |-> "none"]
@@ -96,12 +102,13 @@ Init ==
   /\ up = "down" /\ pc = "idle" /\ mem = {} /\ imm = {} /\ ver = {}
   /\ curWal = 0 /\ logWal = 0 /\ manNo = 0 /\ nextFile = 1 /\ reuseOpt = FALSE
   /\ recWals = <<>> /\ job = None
-  /\ started = 0 /\ acked = 0 /\ nextB = 1 /\ crashes = 0 /\ lastAppend = None
+  /\ started = {} /\ acked = {} /\ nextB = 1 /\ crashes = 0 /\ lastAppend = None
+  /\ failed = {} /\ faults = 0 /\ bad = FALSE
 
 ResetVolatile ==
   /\ up' = "down" /\ pc' = "idle" /\ mem' = {} /\ imm' = {} /\ ver' = {}
   /\ curWal' = 0 /\ logWal' = 0 /\ manNo' = 0 /\ nextFile' = 1 /\ reuseOpt' = FALSE
-  /\ recWals' = <<>> /\ job' = None
+  /\ recWals' = <<>> /\ job' = None /\ bad' = FALSE
 
 ---------------------------------------------------------------------------
 (* appends: one fragment / chunk per step; lastAppend remembers what a torn crash damages *)
@@ -119,7 +126,7 @@ StartOpen(r) ==
   /\ up = "down" /\ pc = "idle"
   /\ up' = "rec" /\ reuseOpt' = r
   /\ pc' = IF cur = 0 THEN "new1" ELSE "readman"
-  /\ UNCHANGED <<disk, mem, imm, ver, curWal, logWal, manNo, nextFile, recWals, job, ghost>>
+  /\ UNCHANGED <<disk, mem, imm, ver, curWal, logWal, manNo, nextFile, recWals, job, ghost, bad>>
   /\ NoAppend
 
 \* NewDB: create MANIFEST-1, append the initial record, switch CURRENT
@@ -128,7 +135,7 @@ New1 ==
   /\ man' = (1 :> <<>>) @@ man
   /\ pc' = "new2"
   /\ UNCHANGED <<wal, tab, cur, tmp, up, mem, imm, ver, curWal, logWal, manNo, nextFile,
-                 reuseOpt, recWals, job, ghost>>
+                 reuseOpt, recWals, job, ghost, bad>>
   /\ NoAppend
 
 New2 ==
@@ -138,7 +145,7 @@ New2 ==
   /\ job' = [k |-> "setcur", n |-> 1, ret |-> "readman"]
   /\ pc' = "cur1"
   /\ UNCHANGED <<wal, tab, cur, tmp, up, mem, imm, ver, curWal, logWal, manNo, nextFile,
-                 reuseOpt, recWals, started, acked, nextB, crashes>>
+                 reuseOpt, recWals, started, acked, nextB, crashes, bad, failed, faults>>
 
 \* set_current_file: create temp, write it, rename onto CURRENT
 Cur1 ==
@@ -148,7 +155,7 @@ Cur1 ==
      ELSE /\ tmp' = [k |-> "tmp", n |-> job.n, done |-> FALSE] /\ UNCHANGED cur
   /\ pc' = "cur2"
   /\ UNCHANGED <<wal, man, tab, up, mem, imm, ver, curWal, logWal, manNo, nextFile, reuseOpt,
-                 recWals, job, ghost>>
+                 recWals, job, ghost, bad>>
   /\ NoAppend
 
 Cur2 ==
@@ -158,7 +165,7 @@ Cur2 ==
      ELSE /\ tmp' = [tmp EXCEPT !.done = TRUE] /\ UNCHANGED cur /\ pc' = "cur3"
   /\ lastAppend' = IF Bug_CurrentInPlace THEN None ELSE [k |-> "tmp"]
   /\ UNCHANGED <<wal, man, tab, up, mem, imm, ver, curWal, logWal, manNo, nextFile, reuseOpt,
-                 recWals, job, started, acked, nextB, crashes>>
+                 recWals, job, started, acked, nextB, crashes, bad, failed, faults>>
 
 Cur3 ==
   /\ pc = "cur3"
@@ -166,7 +173,7 @@ Cur3 ==
   /\ pc' = job.ret
   /\ lastAppend' = None
   /\ UNCHANGED <<wal, man, tab, up, mem, imm, ver, curWal, logWal, manNo, nextFile, reuseOpt,
-                 recWals, job, started, acked, nextB, crashes>>
+                 recWals, job, started, acked, nextB, crashes, bad, failed, faults>>
 
 \* VersionSet::recover: replay the manifest CURRENT points to, decide about reusing it
 ReadMan ==
@@ -187,7 +194,7 @@ ReadMan ==
   /\ mem' = {} /\ imm' = {}
   /\ job' = [k |-> "rec", add |-> {}]
   /\ pc' = "replay"
-  /\ UNCHANGED <<disk, up, curWal, reuseOpt, ghost>>
+  /\ UNCHANGED <<disk, up, curWal, reuseOpt, ghost, bad>>
   /\ NoAppend
 
 \* recover_wal_records for the next WAL: complete records go to the memtable; the last WAL may
@@ -196,7 +203,7 @@ Replay ==
   /\ pc = "replay"
   /\ IF recWals = <<>>
      THEN /\ pc' = IF curWal = 0 THEN "newwal" ELSE "recman"
-          /\ UNCHANGED <<disk, mem, imm, curWal, recWals, job, nextFile>>
+          /\ UNCHANGED <<disk, mem, imm, curWal, recWals, job, nextFile, bad>>
      ELSE LET w == Head(recWals)
               got == RecIds(ReadLog(wal[w]))
               last == Len(recWals) = 1
@@ -204,16 +211,16 @@ Replay ==
           /\ recWals' = Tail(recWals)
           /\ IF canReuse
              THEN /\ curWal' = w /\ mem' = mem \cup got /\ pc' = "replay"
-                  /\ UNCHANGED <<disk, imm, job, nextFile>>
+                  /\ UNCHANGED <<disk, imm, job, nextFile, bad>>
              ELSE IF mem \cup got = {}
-             THEN /\ pc' = "replay" /\ UNCHANGED <<disk, mem, imm, curWal, job, nextFile>>
+             THEN /\ pc' = "replay" /\ UNCHANGED <<disk, mem, imm, curWal, job, nextFile, bad>>
              ELSE \* convert_memtable_to_file: create the table (next step completes it)
                   /\ tab' = (NextNo :> [bs |-> mem \cup got, done |-> FALSE]) @@ tab
                   /\ nextFile' = NextNo
                   /\ job' = [job EXCEPT !.add = @ \cup {NextNo}]
                   /\ mem' = {} /\ pc' = "rectab"
-                  /\ UNCHANGED <<wal, man, cur, tmp, imm, curWal>>
-  /\ UNCHANGED <<up, ver, logWal, manNo, reuseOpt, ghost>>
+                  /\ UNCHANGED <<wal, man, cur, tmp, imm, curWal, bad>>
+  /\ UNCHANGED <<up, ver, logWal, manNo, reuseOpt, ghost, bad>>
   /\ NoAppend
 
 RecTab ==
@@ -222,7 +229,8 @@ RecTab ==
   /\ lastAppend' = [k |-> "tab", n |-> Max(job.add)]
   /\ pc' = "replay"
   /\ UNCHANGED <<wal, man, cur, tmp, up, mem, imm, ver, curWal, logWal, manNo, nextFile,
-                 reuseOpt, recWals, job, started, acked, nextB, crashes>>
+                 reuseOpt, recWals, job, started, acked, nextB, crashes, bad, failed,
+                 faults>>
 
 NewWal ==
   /\ pc = "newwal"
@@ -230,28 +238,28 @@ NewWal ==
   /\ curWal' = NextNo /\ nextFile' = NextNo
   /\ pc' = "recman"
   /\ UNCHANGED <<man, tab, cur, tmp, up, mem, imm, ver, logWal, manNo, reuseOpt, recWals, job,
-                 ghost>>
+                 ghost, bad>>
   /\ NoAppend
 
 \* log_and_apply after recovery: new manifest (snapshot + edit, CURRENT switch) unless reused
 RecMan ==
   /\ pc = "recman"
   /\ IF manNo # 0 /\ job.add = {}
-     THEN /\ pc' = "gc" /\ NoAppend /\ UNCHANGED <<disk, manNo, nextFile, job>>
+     THEN /\ pc' = "gc" /\ NoAppend /\ UNCHANGED <<disk, manNo, nextFile, job, bad>>
      ELSE IF manNo # 0
      THEN \* append the edit to the reused manifest
           /\ man' = AppendFrag(man, manNo,
                        [add |-> job.add, del |-> {}, logWal |-> curWal, next |-> nextFile], 1)
           /\ lastAppend' = [k |-> "man", n |-> manNo]
           /\ pc' = "recapply"
-          /\ UNCHANGED <<wal, tab, cur, tmp, manNo, nextFile, job>>
+          /\ UNCHANGED <<wal, tab, cur, tmp, manNo, nextFile, job, bad>>
      ELSE \* create a new manifest file
           /\ man' = (NextNo :> <<>>) @@ man
           /\ manNo' = NextNo /\ nextFile' = NextNo
           /\ pc' = "recsnap" /\ NoAppend
-          /\ UNCHANGED <<wal, tab, cur, tmp, job>>
+          /\ UNCHANGED <<wal, tab, cur, tmp, job, bad>>
   /\ UNCHANGED <<up, mem, imm, ver, curWal, logWal, reuseOpt, recWals, started, acked, nextB,
-                 crashes>>
+                 crashes, bad, failed, faults>>
 
 RecSnap ==
   /\ pc = "recsnap"
@@ -261,13 +269,13 @@ RecSnap ==
   /\ job' = [k |-> "setcur", n |-> manNo, ret |-> "recapply", add |-> job.add]
   /\ pc' = "cur1"
   /\ UNCHANGED <<wal, tab, cur, tmp, up, mem, imm, ver, curWal, logWal, manNo, nextFile,
-                 reuseOpt, recWals, started, acked, nextB, crashes>>
+                 reuseOpt, recWals, started, acked, nextB, crashes, bad, failed, faults>>
 
 RecApply ==
   /\ pc = "recapply"
   /\ ver' = ver \cup job.add /\ logWal' = curWal
   /\ pc' = "gc"
-  /\ UNCHANGED <<disk, up, mem, imm, curWal, manNo, nextFile, reuseOpt, recWals, job, ghost>>
+  /\ UNCHANGED <<disk, up, mem, imm, curWal, manNo, nextFile, reuseOpt, recWals, job, ghost, bad>>
   /\ NoAppend
 
 \* remove_obsolete_files, one removal per step
@@ -289,20 +297,19 @@ Gc ==
             /\ tab' = IF d[1] = "tab" THEN Drop(tab, d[2]) ELSE tab
             /\ man' = IF d[1] = "man" THEN Drop(man, d[2]) ELSE man
             /\ tmp' = IF d[1] = "tmp" THEN None ELSE tmp
-            /\ UNCHANGED <<cur, pc>>
+            /\ UNCHANGED <<cur, pc, bad>>
   /\ UNCHANGED <<up, mem, imm, ver, curWal, logWal, manNo, nextFile, reuseOpt, recWals, job,
-                 ghost>>
+                 ghost, bad>>
   /\ NoAppend
 
 Opened ==
   /\ pc = "opened" /\ up = "rec"
   /\ up' = "up" /\ pc' = "idle"
   \* whatever survived is now visible: numbering continues after it
-  /\ LET m == Max(mem \cup TabBatches(ver)) IN
-     /\ nextB' = m + 1 /\ acked' = IF m > acked THEN m ELSE acked
-     /\ started' = IF m > acked THEN m ELSE acked
+  /\ acked' = acked \cup mem \cup TabBatches(ver)
+  /\ UNCHANGED <<nextB, started>>
   /\ UNCHANGED <<disk, mem, imm, ver, curWal, logWal, manNo, nextFile, reuseOpt, recWals, job,
-                 crashes>>
+                 crashes, bad, failed, faults>>
   /\ NoAppend
 
 ---------------------------------------------------------------------------
@@ -310,12 +317,16 @@ Opened ==
 
 WriteStart ==
   /\ up = "up" /\ pc = "idle" /\ nextB <= MaxB /\ Cardinality(mem) < MemCap
-  /\ started' = nextB
-  /\ job' = [k |-> "write", b |-> nextB, left |-> Frags(nextB)]
-  /\ pc' = IF Bug_AckBeforeWal THEN "wack" ELSE "wwal"
-  /\ UNCHANGED <<disk, up, mem, imm, ver, curWal, logWal, manNo, nextFile, reuseOpt, recWals,
-                 acked, nextB, crashes>>
+  /\ started' = started \cup {nextB} /\ nextB' = nextB + 1
+  /\ IF bad
+     THEN \* the sticky error is returned before anything is written
+          /\ failed' = failed \cup {nextB} /\ UNCHANGED <<pc, job>>
+     ELSE /\ job' = [k |-> "write", b |-> nextB, left |-> Frags(nextB)]
+          /\ pc' = IF Bug_AckBeforeWal THEN "wack" ELSE "wwal"
+          /\ UNCHANGED failed
   /\ NoAppend
+  /\ UNCHANGED <<disk, up, mem, imm, ver, curWal, logWal, manNo, nextFile, reuseOpt, recWals,
+                 acked, crashes, bad, faults>>
 
 WriteWal ==
   /\ pc = "wwal"
@@ -325,35 +336,47 @@ WriteWal ==
   /\ pc' = IF job.left = 1 THEN (IF Bug_AckBeforeWal THEN "idle" ELSE "wmem") ELSE "wwal"
   /\ mem' = IF job.left = 1 /\ Bug_AckBeforeWal THEN mem \cup {job.b} ELSE mem
   /\ UNCHANGED <<man, tab, cur, tmp, up, imm, ver, curWal, logWal, manNo, nextFile, reuseOpt,
-                 recWals, started, acked, nextB, crashes>>
+                 recWals, started, acked, nextB, crashes, bad, failed, faults>>
 
 WriteMem ==
   /\ pc = "wmem"
   /\ mem' = mem \cup {job.b}
   /\ pc' = "wack"
   /\ UNCHANGED <<disk, up, imm, ver, curWal, logWal, manNo, nextFile, reuseOpt, recWals, job,
-                 ghost>>
+                 ghost, bad>>
   /\ NoAppend
 
 WriteAck ==
   /\ pc = "wack"
-  /\ acked' = job.b /\ nextB' = job.b + 1
+  /\ acked' = acked \cup {job.b}
   /\ pc' = IF Bug_AckBeforeWal THEN "wwal" ELSE "idle"
-  /\ UNCHANGED <<disk, up, mem, imm, ver, curWal, logWal, manNo, nextFile, reuseOpt, recWals,
-                 job, started, crashes>>
   /\ NoAppend
+  /\ UNCHANGED <<disk, up, mem, imm, ver, curWal, logWal, manNo, nextFile, reuseOpt, recWals,
+                 job, started, nextB, crashes, bad, failed, faults>>
 
----------------------------------------------------------------------------
+\* C08: the WAL append fails: the call returns the error and the database refuses later writes
+FailWal ==
+  /\ pc = "wwal" /\ faults < MaxFaults
+  /\ faults' = faults + 1
+  /\ bad' = TRUE /\ pc' = "idle"
+  /\ IF Bug_WriteErrorSwallowed
+     THEN acked' = acked \cup {job.b} /\ UNCHANGED failed
+     ELSE failed' = failed \cup {job.b} /\ UNCHANGED acked
+  /\ NoAppend
+  /\ UNCHANGED <<disk, up, mem, imm, ver, curWal, logWal, manNo, nextFile, reuseOpt, recWals,
+                 job, started, nextB, crashes>>
+
+-----
 (* ROTATE + FLUSH: new WAL; table built and completed; manifest record; imm dropped; old WAL
    removed by the deletion pass *)
 
 Rotate ==
-  /\ up = "up" /\ pc = "idle" /\ mem # {} /\ imm = {}
+  /\ up = "up" /\ pc = "idle" /\ mem # {} /\ imm = {} /\ ~bad
   /\ wal' = (NextNo :> <<>>) @@ wal
   /\ curWal' = NextNo /\ nextFile' = NextNo
   /\ imm' = mem /\ mem' = {}
   /\ pc' = "flush1"
-  /\ UNCHANGED <<man, tab, cur, tmp, up, ver, logWal, manNo, reuseOpt, recWals, job, ghost>>
+  /\ UNCHANGED <<man, tab, cur, tmp, up, ver, logWal, manNo, reuseOpt, recWals, job, ghost, bad>>
   /\ NoAppend
 
 Flush1 ==   \* create the table file
@@ -362,8 +385,8 @@ Flush1 ==   \* create the table file
   /\ nextFile' = NextNo
   /\ job' = [k |-> "flush", t |-> NextNo]
   /\ pc' = IF Bug_ManifestBeforeTable THEN "flush3" ELSE "flush2"
-  /\ UNCHANGED <<wal, man, cur, tmp, up, mem, imm, ver, curWal, logWal, manNo, reuseOpt,
-                 recWals, ghost>>
+  /\ UNCHANGED <<wal, man, cur, tmp, up, mem, imm, ver, curWal, logWal, manNo, reuseOpt, recWals,
+                 ghost, bad>>
   /\ NoAppend
 
 Flush2 ==   \* write it completely
@@ -373,14 +396,15 @@ Flush2 ==   \* write it completely
   /\ pc' = IF Bug_ManifestBeforeTable THEN "flush4" ELSE
            IF Bug_WalDeletedEarly THEN "flushgc" ELSE "flush3"
   /\ UNCHANGED <<wal, man, cur, tmp, up, mem, imm, ver, curWal, logWal, manNo, nextFile,
-                 reuseOpt, recWals, job, started, acked, nextB, crashes>>
+                 reuseOpt, recWals, job, started, acked, nextB, crashes, bad, failed,
+                 faults>>
 
 FlushGcEarly ==  \* deviation: the old WAL goes before the manifest knows about the table
   /\ pc = "flushgc"
   /\ wal' = [x \in {w \in DOMAIN wal : w >= curWal} |-> wal[x]]
   /\ pc' = "flush3"
   /\ UNCHANGED <<man, tab, cur, tmp, up, mem, imm, ver, curWal, logWal, manNo, nextFile,
-                 reuseOpt, recWals, job, ghost>>
+                 reuseOpt, recWals, job, ghost, bad>>
   /\ NoAppend
 
 Flush3 ==   \* manifest record: new table, WAL number advanced
@@ -390,14 +414,32 @@ Flush3 ==   \* manifest record: new table, WAL number advanced
   /\ lastAppend' = [k |-> "man", n |-> manNo]
   /\ pc' = IF Bug_ManifestBeforeTable THEN "flush2" ELSE "flush4"
   /\ UNCHANGED <<wal, tab, cur, tmp, up, mem, imm, ver, curWal, logWal, manNo, nextFile,
-                 reuseOpt, recWals, job, started, acked, nextB, crashes>>
+                 reuseOpt, recWals, job, started, acked, nextB, crashes, bad, failed,
+                 faults>>
 
 Flush4 ==   \* install the version, drop the immutable memtable, deletion pass
   /\ pc = "flush4"
   /\ ver' = ver \cup {job.t} /\ logWal' = curWal /\ imm' = {}
   /\ pc' = "gc"
-  /\ UNCHANGED <<disk, up, mem, curWal, manNo, nextFile, reuseOpt, recWals, job, ghost>>
+  /\ UNCHANGED <<disk, up, mem, curWal, manNo, nextFile, reuseOpt, recWals, job, ghost, bad>>
   /\ NoAppend
+
+\* C08: building the table fails: background error, the immutable memtable is kept
+FailFlushTable ==
+  /\ pc \in {"flush1", "flush2"} /\ ~Bug_ManifestBeforeTable /\ faults < MaxFaults
+  /\ faults' = faults + 1 /\ bad' = TRUE /\ pc' = "idle"
+  /\ NoAppend
+  /\ UNCHANGED <<disk, up, mem, imm, ver, curWal, logWal, manNo, nextFile, reuseOpt, recWals,
+                 job, started, acked, nextB, crashes, failed>>
+
+\* C08: the manifest append fails: background error, nothing is installed, nothing is deleted
+FailFlushManifest ==
+  /\ pc = "flush3" /\ faults < MaxFaults
+  /\ faults' = faults + 1 /\ bad' = TRUE
+  /\ pc' = IF Bug_ManifestErrorSwallowed THEN "flush4" ELSE "idle"
+  /\ NoAppend
+  /\ UNCHANGED <<disk, up, mem, imm, ver, curWal, logWal, manNo, nextFile, reuseOpt, recWals,
+                 job, started, acked, nextB, crashes, failed>>
 
 \* a clean close
 Close ==
@@ -432,7 +474,7 @@ Crash(torn) ==
   /\ IF torn THEN AllowTorn /\ lastAppend # None /\ Tear ELSE UNCHANGED disk
   /\ ResetVolatile
   /\ lastAppend' = None
-  /\ UNCHANGED <<started, acked, nextB>>
+  /\ UNCHANGED <<started, acked, nextB, failed, faults>>
 
 ---------------------------------------------------------------------------
 Next ==
@@ -441,6 +483,7 @@ Next ==
   \/ RecSnap \/ RecApply \/ Gc \/ Opened
   \/ WriteStart \/ WriteWal \/ WriteMem \/ WriteAck
   \/ Rotate \/ Flush1 \/ Flush2 \/ FlushGcEarly \/ Flush3 \/ Flush4
+  \/ FailWal \/ FailFlushTable \/ FailFlushManifest
   \/ Close
   \/ Crash(FALSE) \/ Crash(TRUE)
 
@@ -455,7 +498,11 @@ Bound == nextFile <= MaxFile
 Durable ==
   (up = "up") =>
      LET got == mem \cup imm \cup TabBatches(ver) IN
-     \E m \in acked..started : got = 1..m
+     /\ acked \subseteq got          \* nothing acknowledged is lost
+     /\ got \subseteq started        \* nothing is invented; a batch id is in or out as a whole
+     \* commit order: a surviving unacknowledged batch never overtakes a lost older one unless
+     \* the older one failed or was in flight
+     /\ \A b \in got : \A a \in 1..(b - 1) : a \in got \/ a \notin acked
 
 \* a recovery that was started on a disk this protocol produced never gets stuck on a missing or
 \* unreadable file: in state "rec" with pc = "readman" the guard of ReadMan must hold
@@ -475,5 +522,5 @@ DiskHoldsAcked ==
      LET st == FoldMan(ReadLog(man[cur]), [ver |-> {}, logWal |-> 0, next |-> 1])
          inTabs == TabBatches(st.ver)
          inWals == UNION {RecIds(ReadLog(wal[w])) : w \in {x \in DOMAIN wal : x >= st.logWal}} IN
-     1..acked \subseteq inTabs \cup inWals
+     acked \subseteq inTabs \cup inWals
 =============================================================================
